@@ -17,19 +17,35 @@ Local Open Scope Q_scope.
 
 (* ------------------------------------------------------------------ square root *)
 Definition sqrt_bits : Z := 100.
-Definition is_square (z : Z) : bool := Z.eqb (Z.sqrt z * Z.sqrt z) z.
-(* lower approximation of sqrt q (q >= 0), exact when numerator and denominator of the reduced fraction are squares *)
-Definition qsqrt (q : Q) : Q :=
+(* integer square root: Newton iteration on machine-efficient division, accepted only after the exact check
+   r^2 <= n < (r+1)^2 (certificate pattern); otherwise the library function *)
+Fixpoint newton (fuel : nat) (n x : Z) : Z :=
+  match fuel with
+  | O => x
+  | S k => let y := Z.div (x + Z.div n x) 2 in if Z.ltb y x then newton k n y else x
+  end.
+Definition zsqrt (n : Z) : Z :=
+  if Z.leb n 0 then 0%Z
+  else
+    let x0 := Z.pow 2 (Z.div (Z.log2 n) 2 + 1) in
+    let r := newton 400 n x0 in
+    if Z.leb (r * r) n && Z.ltb n ((r + 1) * (r + 1)) && Z.leb 0 r then r else Z.sqrt n.
+Definition pow4b : Z := 4 ^ sqrt_bits.
+Definition pow2b : positive := Z.to_pos (2 ^ sqrt_bits).
+(* bracket [lo, hi] of sqrt q (q >= 0): lo = hi when numerator and denominator of the reduced fraction are
+   squares, otherwise hi = lo + 2^-100 *)
+Definition sqrt_bracket (q : Q) : Q * Q :=
   let r := Qred q in
   let n := Qnum r in
   let d := Zpos (Qden r) in
-  if Z.leb n 0 then 0
-  else if is_square n && is_square d then Z.sqrt n # Z.to_pos (Z.sqrt d)
-  else Z.sqrt ((n * 4 ^ sqrt_bits) / d) # Z.to_pos (2 ^ sqrt_bits).
+  if Z.leb n 0 then (0, 0)
+  else
+    let sn := zsqrt n in let sd := zsqrt d in
+    if Z.eqb (sn * sn) n && Z.eqb (sd * sd) d then (sn # Z.to_pos sd, sn # Z.to_pos sd)
+    else let x := zsqrt ((n * pow4b) / d) in (x # pow2b, (x + 1) # pow2b).
+Definition qsqrt (q : Q) : Q := fst (sqrt_bracket q).
+Definition qsqrt_hi (q : Q) : Q := snd (sqrt_bracket q).
 Definition qsqrt_exact (q : Q) : bool := qeqb (qsqrt q * qsqrt q) q.
-(* upper end of the bracket *)
-Definition qsqrt_hi (q : Q) : Q :=
-  if qsqrt_exact q then qsqrt q else qsqrt q + (1 # Z.to_pos (2 ^ sqrt_bits)).
 
 (* ------------------------------------------------------------------ closed forms over Q (normalised distance h >= 0) *)
 (* CovNugget.cpp:42   ABS(h) < 1.e-10 *)
@@ -184,7 +200,8 @@ Definition COVWGT (o : Z) : list Q :=
   end.
 
 Definition cor_at (c : cova) (ndim : Z) (h2 : Q) : option qi :=
-  cor_enc (cv_type c) (cv_param c) ndim (cv_field c) (cv_cov0 c) (qsqrt h2) (qsqrt_hi h2).
+  let b := sqrt_bracket h2 in
+  cor_enc (cv_type c) (cv_param c) ndim (cv_field c) (cv_cov0 c) (fst b) (snd b).
 
 Definition omap2 {A B C} (f : A -> B -> C) (a : option A) (b : option B) : option C :=
   match a, b with Some x, Some y => Some (f x y) | _, _ => None end.
@@ -204,8 +221,10 @@ Definition cor_from_h2 (c : cova) (ndim : Z) (m : cmode) (h2 : Q) : option qi :=
 Definition sill_at (c : cova) (i j : nat) : Q := nth j (nth i (cv_sill c) []) 0.
 
 (* CovAniso::eval / eval0 *)
+Definition apply_sill (c : cova) (m : cmode) (i j : nat) (v : option qi) : option qi :=
+  option_map (fun v => if m_unitary m then v else qi_scale (sill_at c i j) v) v.
 Definition cova_eval_h2 (c : cova) (ndim : Z) (m : cmode) (i j : nat) (h2 : Q) : option qi :=
-  option_map (fun v => if m_unitary m then v else qi_scale (sill_at c i j) v) (cor_from_h2 c ndim m h2).
+  apply_sill c m i j (cor_from_h2 c ndim m h2).
 Definition cova_eval (c : cova) (ndim : Z) (m : cmode) (i j : nat) (p1 p2 : list Q) : option qi :=
   cova_eval_h2 c ndim m i j (h2_of c p1 p2).
 Definition cova_eval0 (c : cova) (ndim : Z) (m : cmode) (i j : nat) : option qi :=
@@ -226,10 +245,20 @@ Definition model_eval0 (cs : list cova) (ndim : Z) (m : cmode) (i j : nat) : opt
   option_map qi_red (sum_opt (map (fun oc => match oc with Some c => cova_eval0 c ndim m i j | None => None end)
                        (active_covs cs m))).
 
-(* ACov::evalCovMatrixSymmetric, every variable, every sample: row = ivar * n + iech *)
-Definition cov_matrix (cs : list cova) (ndim : Z) (m : cmode) (nvar : nat) (pts : list (list Q)) : list (list (option qi)) :=
+(* ACov::evalCovMatrixSymmetric, every variable, every sample: row = ivar * n + iech.
+   [cov_matrix_spec] is the definition; [cov_matrix] computes the correlation of every pair of points once and
+   applies the sills afterwards (lemma cov_matrix_eq in Proofs.v) *)
+Definition cov_matrix_spec (cs : list cova) (ndim : Z) (m : cmode) (nvar : nat) (pts : list (list Q)) : list (list (option qi)) :=
   flat_map (fun iv => map (fun p1 =>
      flat_map (fun jv => map (fun p2 => model_eval cs ndim m iv jv p1 p2) pts) (seq 0 nvar)) pts) (seq 0 nvar).
+Definition pair_cors (cs : list cova) (ndim : Z) (m : cmode) (p1 p2 : list Q) : list (option (cova * option qi)) :=
+  map (fun oc => match oc with Some c => Some (c, cor_from_h2 c ndim m (h2_of c p1 p2)) | None => None end) (active_covs cs m).
+Definition cell_value (m : cmode) (iv jv : nat) (cell : list (option (cova * option qi))) : option qi :=
+  option_map qi_red (sum_opt (map (fun x => match x with Some (c, v) => apply_sill c m iv jv v | None => None end) cell)).
+Definition cov_matrix (cs : list cova) (ndim : Z) (m : cmode) (nvar : nat) (pts : list (list Q)) : list (list (option qi)) :=
+  let cors := map (fun p1 => map (fun p2 => pair_cors cs ndim m p1 p2) pts) pts in
+  flat_map (fun iv => map (fun row =>
+     flat_map (fun jv => map (fun cell => cell_value m iv jv cell) row) (seq 0 nvar)) cors) (seq 0 nvar).
 
 (* quadratic form x^T K x of a point-valued matrix (used by the refutation witness) *)
 Definition lquad (K : list (list Q)) (x : list Q) : Q := ldot x (map (fun row => ldot row x) K).
